@@ -56,7 +56,12 @@ func genC01(r *simrt.Rand, tier string, idx int) *hx.Program {
 			p.Ops = append(p.Ops, hx.Op{K: "rdl", A: []int64{int64(r.Intn(2))}})
 			p.Ops = append(p.Ops, hx.Op{K: "app", A: []int64{int64(1 + r.Intn(8)), int64(r.Uint64() >> 1)}})
 		case k < 96:
-			p.Ops = append(p.Ops, hx.Op{K: "rdstop"})
+			if r.Pct(50) {
+				// one reader is cancelled, the others stay parked where they are (waiter tables are shared)
+				p.Ops = append(p.Ops, hx.Op{K: "rdstop1", A: []int64{int64(r.Intn(1000))}})
+			} else {
+				p.Ops = append(p.Ops, hx.Op{K: "rdstop"})
+			}
 		default:
 			p.Ops = append(p.Ops, hx.Op{K: "sleep", A: []int64{int64(1 + r.Intn(20000))}})
 		}
@@ -393,6 +398,12 @@ func execC01(t *testing.T, prog *hx.Program, dec *simrt.Decider, verbose bool) *
 				c.startReader(0, op.Arg(0, 0) == 1, true)
 			case "rdstop":
 				c.stopReaders()
+			case "rdstop1":
+				if len(c.readers) > 0 {
+					victim := c.readers[int(op.Arg(0, 0))%len(c.readers)]
+					c.stopSome(func(lr *liveReader) bool { return lr == victim })
+					h.s.Count("probe.single_reader_cancelled_others_stay")
+				}
 			case "sleep":
 				simrt.Sleep(time.Duration(op.Arg(0, 1)) * time.Millisecond)
 			}
